@@ -111,11 +111,17 @@ type Node struct {
 	SP      *services.ServiceProvider
 	Cfg     *config.Config
 
-	pollMu  sync.Mutex
-	tick    chan time.Time
-	cancel  context.CancelFunc
-	pollErr chan error
+	pollMu   sync.Mutex
+	tick     chan time.Time
+	cancel   context.CancelFunc
+	pollErr  chan error
+	pollDead chan struct{} // closed when the Poll loop ended (returned or crashed)
+	// Crashed holds the injected-crash sentinel if the Poll loop died from one
+	Crashed interface{}
 }
+
+// CrashSentinel is panicked by harness hooks to simulate the death of the node process.
+type CrashSentinel struct{ Point string }
 
 // tickerMu serialises Poll start-up so that the global ticker hook can hand each Poll loop its
 // own harness-fed channel.
@@ -183,7 +189,22 @@ func (n *Node) StartPoll() {
 		return vtime.NewHarnessTicker(ch, nil)
 	})
 	n.pollErr = make(chan error, 1)
-	go func() { n.pollErr <- n.Svc.Poll() }()
+	n.pollDead = make(chan struct{})
+	dead := n.pollDead
+	go func() {
+		defer close(dead)
+		defer func() {
+			if r := recover(); r != nil {
+				if cs, ok := r.(CrashSentinel); ok {
+					n.Crashed = cs
+					n.pollErr <- fmt.Errorf("node process crashed at %s", cs.Point)
+					return
+				}
+				panic(r)
+			}
+		}()
+		n.pollErr <- n.Svc.Poll()
+	}()
 	<-got
 	vtime.SetTickerHook(nil)
 	tickerMu.Unlock()
@@ -217,18 +238,23 @@ func (n *Node) Tick(horizon int) error {
 		n.pollErr <- err
 		return fmt.Errorf("poll loop ended: %v", err)
 	}
-	n.Handle.WaitGetCalls(before + 1)
+	if !n.Handle.WaitGetCallsOr(before+1, n.pollDead) {
+		return fmt.Errorf("poll loop ended during the tick")
+	}
 	// Barrier: a second tick is only received after the first one was handled completely. The
 	// barrier tick must see nothing (horizon 0), and once its GetMessages has read the log the
 	// loop touches nothing else.
 	n.Handle.SetHorizon(0)
 	select {
 	case n.tick <- T0:
+		// the barrier tick was taken: the first tick is complete; it must see nothing
 	case err := <-n.pollErr:
 		n.pollErr <- err
 		return fmt.Errorf("poll loop ended: %v", err)
 	}
-	n.Handle.WaitGetCalls(before + 2)
+	if !n.Handle.WaitGetCallsOr(before+2, n.pollDead) {
+		return fmt.Errorf("poll loop ended during the barrier tick")
+	}
 	n.Handle.SetHorizon(-1)
 	return nil
 }
